@@ -207,3 +207,157 @@ contract(CODE15,
                         decreases=lambda line_diff: line_diff)})
 
 ALL_CONTRACTS = list(CONTRACTS)
+
+
+# ------------------------------------------------------------------------------------------------ Code310 (3.10 line table)
+# The 3.10 table is a sequence of (range length, signed line delta) pairs; -128 marks a range without line.  The ghost reader
+# (HAcc mode "lt310") is dis.findlinestarts over code.co_lines() of CPython 3.10.  The encoder has a nested emitter function;
+# its loops are specified under the key ("emit_range", ordinal).
+from pyvc.types import Bytes
+
+
+class Code310WithTable(Maker):
+    def __call__(self, eng, name):
+        import xdis.codetype.code310 as C
+        tab, hs = PairList()(eng, name + ".co_linetable")
+        code, hs2 = Bytes()(eng, name + ".co_code")
+        first = z3.Int(name + ".co_firstlineno")
+        o = SObj(__class__=C.Code310, co_linetable=tab, co_code=code, co_firstlineno=SInt(first))
+        return o, hs + hs2
+
+    def examples(self, rng, n):
+        out = []
+        gaps_o = [2, 4, 254, 256, 258, 508, 510, 600]
+        gaps_l = [1, 2, 126, 127, 128, 129, 254, 255, 300, 1000, -1, -2, -127, -128, -129, -256, -300]
+        for _ in range(n):
+            first = rng.choice([1, 40, 2000])
+            line = first + rng.choice([0, 0, 3, 200])
+            off = rng.choice([0, 0, 0, 6, 300])
+            t = [(off, line)]
+            for _ in range(rng.randrange(0, 4)):
+                off += rng.choice(gaps_o)
+                line += rng.choice(gaps_l)
+                t.append((off, line))
+            out.append(("__obj__", {"co_linetable": t, "co_firstlineno": first, "co_code": bytes(off + rng.choice([2, 10, 300]))}))
+        return out
+
+
+def table310_ok(self):
+    t = self.co_linetable
+    n = Len(t)
+    return And(n >= 1, t[0][0] >= 0,
+               ForAll(lambda j: Implies(And(0 <= j, j + 1 < n), And(t[j][0] < t[j + 1][0], t[j][1] != t[j + 1][1]))),
+               Len(self.co_code) > t[n - 1][0])
+
+
+def t310(_old_self):
+    return _old_self.co_linetable
+
+
+def end_of(_old_self, k):
+    t = t310(_old_self)
+    n = Len(t)
+    return If(k + 1 < n, t[k + 1][0], Len(_old_self.co_code))
+
+
+def on_yield310(addr, line, _old_self, _env):
+    i = _env.get("i")
+    if i is None:
+        return False          # before the first entry (the "no line" prefix) the reader must not yield anything
+    t = t310(_old_self)
+    return And(0 <= i, i < Len(t), addr == t[i][0], line == t[i][1])
+
+
+def outer310(co_linetable, prev_line_number, table, code_size, _old_self, _k):
+    """before entry _k: the reader has yielded entries 0.._k-1, stands at the start of entry _k on the line of entry _k-1"""
+    t = t310(_old_self)
+    n = Len(t)
+    return And(code_size == Len(_old_self.co_code), Len(table) == n,
+               co_linetable.A == If(_k < n, t[_k][0], Len(_old_self.co_code)),
+               co_linetable.L == If(_k >= 1, t[_k - 1][1], _old_self.co_firstlineno), prev_line_number == co_linetable.L,
+               co_linetable.N == _k, If(_k >= 1, And(co_linetable.HL, co_linetable.LAST == co_linetable.L), Not(co_linetable.HL)))
+
+
+def in_emit(co_linetable, length, line_diff, i, offset, line_number, _old_self):
+    """inside emit_range for entry i: what is still owed plus what the reader has seen make up the entry's range and line;
+    the entry is yielded exactly once, at the first non-empty pair"""
+    t = t310(_old_self)
+    A, L = co_linetable.A, co_linetable.L
+    yielded = And(co_linetable.N == i + 1, co_linetable.HL, co_linetable.LAST == t[i][1], L == t[i][1], line_diff == 0)
+    pending = And(co_linetable.N == i, If(i >= 1, And(co_linetable.HL, co_linetable.LAST == t[i - 1][1]), Not(co_linetable.HL)))
+    return And(0 <= i, i < Len(t), offset == t[i][0], line_number == t[i][1],
+               A + length == end_of(_old_self, i), L + line_diff == line_number, length >= 0, A >= offset,
+               Implies(A == offset, length > 0),
+               If(A == offset, pending, yielded))
+
+
+def reference_reader310(data, first):
+    """dis.findlinestarts of CPython 3.10 over co_lines() on a raw co_linetable"""
+    out, end, line, last = [], 0, first, None
+    for a, b in zip(data[0::2], data[1::2]):
+        if b == 128:
+            end += a
+            continue
+        line += b - 256 if b >= 128 else b
+        if a:
+            if line != last:
+                out.append((end, line))
+                last = line
+            end += a
+    return out, end
+
+
+def native_encoder310_check(config, inputs):
+    import xdis.codetype.code310 as C
+    s = inputs["self"]
+    t = [tuple(x) for x in s.co_linetable]
+    first = s.co_firstlineno
+    code = bytes(s.co_code)
+    if not t or t[0][0] < 0 or not all(a[0] < b[0] and a[1] != b[1] for a, b in zip(t, t[1:])) or len(code) <= t[-1][0]:
+        return None
+    obj = C.Code310.__new__(C.Code310)
+    obj.co_linetable = list(t)
+    obj.co_firstlineno = first
+    obj.co_code = code
+    try:
+        obj.encode_lineno_tab()
+    except Exception as e:
+        return {"violated": ["raises:%s" % type(e).__name__], "exception": repr(e)}
+    data = bytes(obj.co_linetable)
+    got, end = reference_reader310(data, first)
+    bad = []
+    if got != t:
+        bad.append("reader(%r) == %r, table %r" % (list(data)[:24], got[:6], t[:6]))
+    if end != len(code):
+        bad.append("ranges end at %d, code has %d bytes" % (end, len(code)))
+    return {"violated": bad, "result": repr(list(data)[:40])}
+
+
+CODE310 = "xdis.codetype.code310:Code310.encode_lineno_tab"
+contract(CODE310, params={"self": Code310WithTable()},
+         requires=lambda self: table310_ok(self),
+         accumulators={"co_linetable": AccSpec(first=lambda self: self.co_firstlineno, signed=True, on_yield=on_yield310, mode="lt310")},
+         ensures=lambda self, _old_self: [
+             ("every-entry-yielded", self.co_linetable.N == Len(t310(_old_self))),
+             ("covers-the-code", self.co_linetable.A == Len(_old_self.co_code))],
+         native_check=native_encoder310_check,
+         loops={0: Loop("while length > 254",
+                        invariant=lambda co_linetable, length, table, _old_self: And(
+                            Len(table) == Len(t310(_old_self)), length >= 0, co_linetable.A + length == t310(_old_self)[0][0],
+                            co_linetable.L == _old_self.co_firstlineno, co_linetable.N == 0, Not(co_linetable.HL)),
+                        decreases=lambda length: length),
+                1: Loop("for i, (offset, line_number) in enumerate(table)", invariant=outer310),
+                ("emit_range", 0): Loop("while line_diff > 127",
+                                        invariant=lambda co_linetable, length, line_diff, i, offset, line_number, _old_self: And(
+                                            in_emit(co_linetable, length, line_diff, i, offset, line_number, _old_self), co_linetable.A == offset),
+                                        decreases=lambda line_diff: line_diff),
+                ("emit_range", 1): Loop("while line_diff < -127",
+                                        invariant=lambda co_linetable, length, line_diff, i, offset, line_number, _old_self: And(
+                                            in_emit(co_linetable, length, line_diff, i, offset, line_number, _old_self), co_linetable.A == offset, line_diff <= 127),
+                                        decreases=lambda line_diff: 0 - line_diff),
+                ("emit_range", 2): Loop("while length > 254",
+                                        invariant=lambda co_linetable, length, line_diff, i, offset, line_number, _old_self: And(
+                                            in_emit(co_linetable, length, line_diff, i, offset, line_number, _old_self), line_diff <= 127, line_diff >= -127),
+                                        decreases=lambda length: length)})
+
+ALL_CONTRACTS = list(CONTRACTS)
